@@ -100,6 +100,10 @@ def series_data(rng, D, P, shape, dom='R', pattern='random', cplx=False, scale=0
         x[0, p] = bs(rng, shape, cplx)
     if P >= 3 and rng.random() < 0.15:
         x[0, P - 1] = x[0, 0]          # the first base point again after different ones (X, Y, X)
+    elif P >= 2 and rng.random() < 0.12 and dom not in ('Rzero', 'Rzero_mixed'):
+        # neighbouring base points: within 1e-8 ... 1e-12 (relative) of direction 0, not equal to it
+        for p in range(1, P):
+            x[0, p] = x[0, 0] * (1.0 + 10.0 ** -float(rng.integers(8, 13)) * rng.normal(size=x[0, 0].shape))
 
     def rnd(size):
         v = rng.normal(size=size)
